@@ -599,13 +599,19 @@ class Interp:
         if isinstance(f, ast.Name):
             if f.id == 'old' and self.in_spec:
                 return self.eval_old(node.args[0], scope)
-            if f.id == 'same' and self.in_spec:
+            if f.id in ('same', 'same_content') and self.in_spec:
                 a = self.eval(node.args[0], scope)
                 b = self.eval(node.args[1], scope)
+                if not isinstance(a, SV) and isinstance(b, SV):
+                    a = lift(a, b.typ)
                 a = a if isinstance(a, SV) else lift(a)
                 b = b if isinstance(b, SV) else lift(b, a.typ)
                 if a.typ != b.typ:
                     b = coerce(b, a.typ)
+                if f.id == 'same_content' and a.typ.kind == 'Seq':
+                    return SV(BOOL, seq_eq(a, b))          # same content (positions beyond the length are irrelevant)
+                if f.id == 'same_content' and a.typ.kind == 'Map':
+                    return SV(BOOL, map_eq(a, b))
                 return SV(BOOL, a.t == b.t)
             if f.id in ('implies', 'iff') and self.in_spec:
                 a = self.truth(self.eval(node.args[0], scope))
